@@ -49,7 +49,14 @@ def render(chars, eol="lf", mixed_rnd=None):
     out = []
     for c in chars:
         if c == "<EOL>":
-            out.append(EOLS[mixed_rnd.choice(["lf", "crlf", "cr"])] if mixed_rnd else EOLS[eol])
+            if mixed_rnd:
+                # two adjacent terminators must stay two: a bare CR directly followed by one that starts with LF would read as ONE CR LF
+                t = EOLS[mixed_rnd.choice(["lf", "crlf", "cr"])]
+                if out and out[-1] == "\r" and t.startswith("\n"):
+                    t = EOLS[mixed_rnd.choice(["crlf", "cr"])]
+                out.append(t)
+            else:
+                out.append(EOLS[eol])
         else:
             out.append(RSPECIAL.get(c, c))
     return "".join(out)
@@ -260,8 +267,43 @@ def c01(tier, replay=None):
         if not rep.samples and docs:
             o = docs[len(docs) // 3]
             rep.samples.append({"document": render(o["d"]["doc"]), "slots": o["slots"], "denotes": expected_content(o["d"])})
+    # size classes beyond the generator's bounds: long tokens (text field, triple-quoted string, many-packet loop, long list)
+    # placed after other items, so that they cross the 4096-byte reads and the 131200-unit scan buffer at an offset
+    big = []
+    for n in ((6399, 131199, 150015) if tier == "quick" else (6399, 65000, 129279, 131199, 131201, 150015, 268799)):
+        body = "\n".join(("L%07d:" % i + "jklmnopqrstuvwxyzABCDEFGHIJKLMNOPQRSTUVWXYZ0123456789abcdefgh")[:63] for i in range((n + 1) // 64))[:n]
+        for dialect, magic in ((2, "#\\#CIF_2.0\n"), (1, "#\\#CIF_1.1\n")):
+            doc = magic + "data_b\n_before 'first value'\n_big\n;" + body + "\n;\n_after 'last value'\n"
+            exp = {"b": {"items": {"_before": {"k": "char", "t": "first value", "q": 1}, "_big": {"k": "char", "t": body, "q": 1}, "_after": {"k": "char", "t": "last value", "q": 1}}, "loops": [], "frames": {}}}
+            big.append(("text field of %d characters, CIF %d" % (n, dialect), doc, exp))
+        tq = body.replace("'", "x")
+        big.append(("triple-quoted string of %d characters" % n, "#\\#CIF_2.0\ndata_b\n_before 'first value'\n_big \'\'\'" + tq + "\'\'\'\n_after 'last value'\n",
+                    {"b": {"items": {"_before": {"k": "char", "t": "first value", "q": 1}, "_big": {"k": "char", "t": tq, "q": 1}, "_after": {"k": "char", "t": "last value", "q": 1}}, "loops": [], "frames": {}}}))
+    npk = 3000 if tier == "quick" else 40000
+    big.append(("loop of %d packets" % npk, "#\\#CIF_2.0\ndata_b\nloop_ _i _v\n" + "".join("%d 'v%d'\n" % (i, i) for i in range(npk)),
+                {"b": {"items": {}, "loops": [{"names": ["_i", "_v"], "packets": sorted(json.dumps({"_i": {"k": "char", "t": str(i), "q": 0}, "_v": {"k": "char", "t": "v%d" % i, "q": 1}}, sort_keys=True) for i in range(npk))}], "frames": {}}}))
+    nbig = 0
+    for (label, doc, exp), (key, po, pr, leak) in zip(big, parse_docs(binary, [(doc, i) for i, (label, doc, exp) in enumerate(big)], chunk=4)):
+        label, doc, exp = big[key]
+        problems = []
+        if po is None:
+            problems.append("cif_parse did not return: " + sanitizer_signature(leak or ""))
+        else:
+            if po.get("rc") != 0 or [e for e in po.get("log", []) if e.get("cb") == "error"]:
+                problems.append("rc %s, errors %s" % (po.get("rc"), [e.get("code") for e in po.get("log", []) if e.get("cb") == "error"][:3]))
+            got = observed_content(pr["state"]) if pr and "state" in pr else None
+            if got != exp:
+                gi, ei = (got or {}).get("b", {}).get("items", {}).get("_big", {}).get("t"), exp["b"]["items"].get("_big", {}).get("t")
+                at = next((i for i, (a, b) in enumerate(zip(gi or "", ei or "")) if a != b), -1)
+                problems.append("content differs from the denotation" + (" (_big: first difference at offset %d, %r for %r)" % (at, (gi or "")[at:at + 20], (ei or "")[at:at + 20]) if ei is not None else ""))
+        if problems:
+            rep.violation("size class %s: %s" % (re.sub(r"[0-9]+", "N", label), re.sub(r"[0-9]+", "N", problems[0])[:60]), "%s: %s" % (label, "; ".join(problems)), {"label": label, "document_head": doc[:300]})
+        else:
+            nbig += 1
+    total += len(big); total_ok += nbig
+    log("[C01 size classes] documents %d ok %d" % (len(big), nbig))
     return rep.finish({"states": max(tstates, 1), "transitions": max(ttrans, 1), "traces_validated_against_impl": total_ok,
-                       "documents": total, "configs": covs, "palette_values": len(PALETTE), "exhaustive": tier != "quick",
+                       "documents": total, "configs": covs, "palette_values": len(PALETTE), "size_class_documents": len(big), "exhaustive": tier != "quick",
                        "explanation": "every value of the palette x every admissible presentation x every separator x every context (single slots), and every ordered pair of adjacent value tokens in the pair configurations"},
                       ["the renderer only encodes characters and picks the terminator style; the concrete syntax is produced by CifDoc.tla"])
 
@@ -476,7 +518,7 @@ def c08(tier, replay=None):
         jobs.append((mixed, len(meta))); meta.append((bi, "mixed", 0, "plain"))
     # long tokens across the scan buffer (131200 units) and several reads
     longs = []
-    sizes = [4090, 4095, 4096, 4097, 8191, 8192] if tier == "quick" else [4090 + i for i in range(12)] + [8190, 8191, 8192, 8193, 131190, 131199, 131200, 131201, 131210, 262400, 300000]
+    sizes = [4090, 4095, 4096, 4097, 8191, 8192, 131199, 150015] if tier == "quick" else [4090 + i for i in range(12)] + [8190, 8191, 8192, 8193, 131190, 131199, 131200, 131201, 131210, 262400, 300000]
     for n in sizes:
         for eol in ("lf", "crlf"):
             e = EOLS[eol]
